@@ -564,7 +564,7 @@ def run(rep):
     core.import_rules(rep, "c06", {"TRI-AND", "TRI-OR", "TRI-NOT", "TRI-ALL", "TRI-OF", "TRI-VERDICT"})
     core.import_rules(rep, "c10", {"T-FIND", "STEP-TOTAL", "INDEX", "T-NESTED", "NESTED-MODEL"})
     core.import_rules(rep, "c10", {"NO-OVERRIDE"})
-    core.import_rules(rep, "c07", {"T-PATTERN", "T-SEARCH", "FLAG", "PLAIN-CASE", "AHO-OVERLAP", "T-OFFSET", "LOCKSTEP", "LOWERCASE"})
+    core.import_rules(rep, "c07", {"T-PATTERN", "T-SEARCH", "FLAG", "PLAIN-CASE", "AHO-OVERLAP", "T-OFFSET", "LOCKSTEP", "LOWERCASE", "IDENT-MODEL"})
     rep.floor("T-LOWER", 40)
     rep.floor("OPERAND", 30)
     rep.floor("T-YAML", 14)
